@@ -5,6 +5,7 @@ import (
 	"bytes"
 	"encoding/json"
 	"fmt"
+	"os"
 	"reflect"
 	"strings"
 	"sync"
@@ -216,6 +217,7 @@ func (ev *evaluator) Evaluate(cases []evalCase, chunk int) map[string]*evalResul
 	}
 	ev.cacheMu.Unlock()
 
+	tStart := time.Now()
 	// 1. generation
 	gens := map[string]*genOut{}
 	var gmu sync.Mutex
@@ -244,6 +246,7 @@ func (ev *evaluator) Evaluate(cases []evalCase, chunk int) map[string]*evalResul
 		}(gc)
 	}
 	wg.Wait()
+	tGen := time.Now()
 	// a watchdog alone is not a verdict: run the case again on its own with a longer limit
 	for _, c := range todo {
 		for _, s := range c.Styles {
@@ -316,6 +319,7 @@ func (ev *evaluator) Evaluate(cases []evalCase, chunk int) map[string]*evalResul
 			}
 		}
 	}
+	tPop := time.Now()
 	var jwg sync.WaitGroup
 	jsem := make(chan struct{}, 2*len(ev.oracle.procs))
 	var fatalMu sync.Mutex
@@ -382,6 +386,9 @@ func (ev *evaluator) Evaluate(cases []evalCase, chunk int) map[string]*evalResul
 		}(jb)
 	}
 	jwg.Wait()
+	if len(todo) > 50 {
+		fmt.Fprintf(os.Stderr, "[c18] evaluate %d cases: gen %.1fs populate %.1fs oracle+names %.1fs\n", len(todo), tGen.Sub(tStart).Seconds(), tPop.Sub(tGen).Seconds(), time.Since(tPop).Seconds())
+	}
 	if fatal != "" {
 		r.Fatal("%s", fatal)
 	}
